@@ -181,7 +181,7 @@ def gcc_stream(chk, cli, ncases):
     sc = vlib.scratch("c20_gcc")
     rng = chk.rng
     progs = [(i, tg.gen_program(rng), rng.random() < 0.6) for i in range(ncases)]
-    # corpus: the witness of the known finding (two functions on one line), always first
+    # corpus: the witness of the repaired defect dd2649f (two functions on one line: the entries add up), always first
     w = {"files": {"m0.c": "#include <stdlib.h>\nint f(int a) { return a + 1; } int g(int a) { return a - 1; }\n"
                            "int main(int argc, char **argv)\n{\n    return f(argc) > 100;\n}\n"},
          "units": ["m0.c"], "runs": ["1"], "pair_line": True}
